@@ -208,7 +208,7 @@ def body_array(case):
 
 @st.composite
 def cores_case(draw):
-    a = draw(gen.tt_spec(min_order=2, max_order=4, max_dim=4, max_rank=4, layouts=False))
+    a = draw(gen.tt_spec(min_order=2, max_order=4, max_dim=4, max_rank=4, layouts=False, int_dtype=True))
     d = len(a['rows'])
     a['decay'] = draw(st.booleans())
     if draw(st.booleans()):
@@ -232,7 +232,7 @@ def body_cores(case):
     spec = case['a']
     cores = build.make_cores(spec)
     d = len(cores)
-    if spec['decay']:
+    if spec['decay'] and not spec.get('int_dtype'):
         # give the bonds a decaying spectrum: scale the slices of each interior bond
         for i in range(d - 1):
             r = cores[i].shape[3]
